@@ -39,9 +39,13 @@ def gen_toolkit(rng, only_W=None):
         chosen.append((nm, ck, variant))
     hist = rng.choice(["any", "any", "some-zero", "all-zero", "uneven"])
     zero_rank = rng.randrange(n)
+    # dtype of the update data: all float32 | one dtype per metric for the whole group | one per rank | one per update
+    dmode = rng.choice(["f32"] * 11 + ["one"] * 4 + ["per-rank"] * 2 + ["per-update"] * 3)
+    one_dt = {nm: rng.choice(su.MIXABLE_DTYPES.get(ck, ["float32"])) for nm, ck, _ in chosen}
     members = []
     for j in range(n):
         member = []
+        rank_dt = {nm: rng.choice(su.MIXABLE_DTYPES.get(ck, ["float32"])) for nm, ck, _ in chosen}
         order = rng.sample(chosen, len(chosen)) if coll and rng.random() < 0.3 else chosen   # dict insertion order per rank
         for nm, ck, variant in order:
             if hist == "all-zero":
@@ -51,14 +55,23 @@ def gen_toolkit(rng, only_W=None):
             else:
                 k = rng.randint(0, 3)
             gen = su.classes()[ck][1]
-            member.append([nm, ck, [gen(rng, variant) for _ in range(k)]])
+
+            def dt_of_update():
+                if dmode == "f32":
+                    return "float32"
+                if dmode == "one":
+                    return one_dt[nm]
+                if dmode == "per-rank":
+                    return rank_dt[nm]
+                return rng.choice(su.MIXABLE_DTYPES.get(ck, ["float32"]))
+            member.append([nm, ck, [gen(rng, variant, dt_of_update()) for _ in range(k)]])
         members.append(member)
-    return {"kind": "toolkit", "W": W, "group": g, "dst": None, "entry": entry, "members": members}
+    return {"kind": "toolkit", "W": W, "group": g, "dst": None, "entry": entry, "members": members, "dtypes": dmode}
 
 
 def features(scn):
     g, n = scn["group"], len(scn["group"])
-    f = {"shifted_group": su.shifted(g), "ndim_disagree": [], "bcast_root_shifted": [], "dict_unequal_keys": [],
+    f = {"shifted_group": su.shifted(g), "ndim_disagree": [], "dtype_disagree": [], "bcast_root_shifted": [], "dict_unequal_keys": [],
          "list_all_empty": [], "classes": sorted({m[1] for mem in scn["members"] for m in mem})}
     byname = [{m[0]: su.prepared_state_dict(su.build_metric(m)) for m in mem} for mem in scn["members"]]
     cls = {m[0]: m[1] for m in scn["members"][0]}
@@ -70,6 +83,8 @@ def features(scn):
             if isinstance(v0, torch.Tensor):
                 if len({v.ndim for v in vals}) > 1:
                     f["ndim_disagree"].append([cls[name], s])
+                if len({v.dtype for v in vals}) > 1:
+                    f["dtype_disagree"].append([cls[name], s, sorted({str(v.dtype).replace("torch.", "") for v in vals})])
             elif isinstance(v0, (list, dict)):
                 lens = [len(v) for v in vals]
                 if max(lens) == 0 and isinstance(v0, list):
@@ -101,6 +116,10 @@ def classify(scn, iout):
         fid = None
         if got[0] == "mismatch" and not su.detect_variant()["D10"] and feat["ndim_disagree"] and all(c in su.NDIM_BY_FIRST_UPDATE for c, _ in feat["ndim_disagree"]):
             fid = "C02-ndim-first-update"
+        elif (got[0] == "mismatch" and feat["dtype_disagree"] and (not feat["ndim_disagree"] or su.detect_variant()["D10"])
+              and all(c in su.DTYPE_FOLLOWS_DATA and dts == ["float32", "float64"] for c, _, dts in feat["dtype_disagree"])):
+            # Props/C02.v sync_refuted_dtype: a tensor state is float32 on one member and float64 on another
+            fid = "C02-state-dtype-follows-data"
         elif got[0] == "exc" and got[1] in ("TypeError", "ValueError") and feat["bcast_root_shifted"] and not su.detect_variant()["D9"]:
             fid = "C02-subgroup-bcast-root"
         elif got[0] in ("ok", "exc") and feat["dict_unequal_keys"] and (not feat["ndim_disagree"] or su.detect_variant()["D10"]) and (not feat["bcast_root_shifted"] or su.detect_variant()["D9"]):
@@ -121,6 +140,11 @@ WITNESSES = {
                      [["metric", "MeanSquaredErrorRaw",
                        [[{"dtype": "float32", "shape": [2, 2], "data": [[1, 2], [3, 4]]},
                          {"dtype": "float32", "shape": [2, 2], "data": [[0, 0], [0, 0]]}]]]]]}),
+    # Max() never updated (float32 -inf) next to Max() updated with float64 data: Props/C02.v sync_refuted_dtype
+    "sync_refuted_dtype": ("C02-state-dtype-follows-data",
+        {"kind": "toolkit", "W": 2, "group": [0, 1], "dst": None, "entry": "sync_and_compute",
+         "members": [[["metric", "Max", []]],
+                     [["metric", "Max", [[{"dtype": "float64", "shape": [1], "data": [1]}]]]]]}),
     "sync_refuted_subgroup_root": ("C02-subgroup-bcast-root",
         {"kind": "toolkit", "W": 3, "group": [1, 2], "dst": None, "entry": "sync_and_compute",
          "members": [[["metric", "Cat", []]], [["metric", "Cat", [[cat_spec([5, 6])]]]]]}),
@@ -160,6 +184,7 @@ def tie_stream(ctx, count):
             s.count("class=" + m[1])
         if 0 in nupd and max(nupd) > 0:
             s.count("some-rank-without-data")
+        s.count("data-dtypes=" + scn.get("dtypes", "f32"))
         d = su.compare_toolkit(scn, mout, iout, itr)
         if d and first_bad is None:
             first_bad = {"scenario": su.jsonable(scn), "disagreement": d}
@@ -210,41 +235,60 @@ def uninitialised_stream(ctx):
 
 
 def schema_stream(ctx):
-    """Tie of Models/SyncSchema.v (reach_schema_agree_*): the kinds / ndim / dtype of the registered states of
-    the real classes after generated histories equal the model's schema run on the input shapes."""
+    """Tie of Models/SyncSchema.v (reach_schema_agree*): the kinds / ndim / DTYPE of the registered states of
+    the real classes after generated histories equal the model's schema run on the (shape, dtype) of the update
+    data.  Data comes in every dtype of su.UPDATE_DTYPES (float32 / float64 / integer / bool); an update() that
+    raises is part of the history (the model says: the schema stays)."""
     import torch
-    s = ctx.stream("state-schema correspondence (per-class reach_schema_agree tie)")
+    s = ctx.stream("state-schema correspondence incl. dtypes (per-class reach_schema_agree tie)")
 
     def kind(v):
         if isinstance(v, torch.Tensor):
             return T("t", v.ndim, su.DTYPES[str(v.dtype).replace("torch.", "")])
         return T("l") if isinstance(v, list) else T("d") if isinstance(v, dict) else T("i") if isinstance(v, int) else T("f")
 
-    def shape_of(args):
+    def shape_dtype_of(args):
         for a in args:
             if su.is_tspec(a):
-                return list(a["shape"])
-        return []
+                return [list(a["shape"]), su.DTYPES[a["dtype"]]]
+        return [[], 0]
     cases, meta = [], []
     for ck in SINGLE:
         gen = su.classes()[ck][1]
-        for _ in range(ctx.n(12, 80)):
+        dts = su.UPDATE_DTYPES[ck]
+        for _ in range(ctx.n(30, 150)):
             variant = {"Cat": "float32", "DummySumListStateMetric": 1}.get(ck)
-            hist = [gen(ctx.rng, variant) for _ in range(ctx.rng.choice([0, 0, 1, 2, 3]))]
+            mode = ctx.rng.choice(["f32", "uniform", "mixed", "mixed"])
+            d0 = ctx.rng.choice(dts)
+            hist = [gen(ctx.rng, variant, "float32" if mode == "f32" else d0 if mode == "uniform" else ctx.rng.choice(dts))
+                    for _ in range(ctx.rng.choice([0, 1, 1, 2, 3, 4]))]
             if ck in su.NDIM_BY_FIRST_UPDATE and ck == "Covariance" and ctx.rng.random() < 0.3:
-                hist = [[su.gen_tensor(ctx.rng, "float32", 2, [0, 2])]] + hist       # an empty first batch
-            cases.append(("sync_schema", [T(ck), [shape_of(a) for a in hist]]))
+                hist = [[su.gen_tensor(ctx.rng, ctx.rng.choice(["float32", "float64"]), 2, [0, 2])]] + hist       # an empty first batch
+            cases.append(("sync_schema", [T(ck), [shape_dtype_of(a) for a in hist]]))
             meta.append((ck, hist))
     outs = run_model(cases)
     bad = {}
     for (ck, hist), mout in zip(meta, outs):
+        raised = 0
         try:
-            sd = su.build_metric(["m", ck, hist]).state_dict()
+            m = su.classes()[ck][0]()
+            for args in hist:
+                try:
+                    m.update(*[su.mk_tensor(a) if su.is_tspec(a) else a for a in args])
+                except Exception:  # noqa   a rejected update is part of the history
+                    raised += 1
+            sd = m.state_dict()
             got = [[T(n), kind(sd[n])] for n in sorted(sd)]
         except Exception as ex:
             got = T("exc:" + type(ex).__name__)
-        s.case((ck, repr(su.jsonable(hist))), len(hist) >= 1)
+        dset = sorted({su.CODE_DT[shape_dtype_of(a)[1]] for a in hist})
+        s.case((ck, repr(su.jsonable(hist))), len(hist) >= 1, sample={"class": ck, "dtypes": dset})
         s.count("class=" + ck)
+        s.count("dtypes=" + ("none" if not dset else dset[0] if len(dset) == 1 else "mixed"))
+        if raised:
+            s.count("history-with-rejected-update")
+        if isinstance(got, list) and any(isinstance(k, T) and k.tag == "t" and k.args[1] != 0 for _, k in got) and ck in su.DTYPE_FOLLOWS_DATA | {"MeanSquaredError"}:
+            s.count("dtype-following-state-not-float32")
         if got != mout and ck not in bad:
             bad[ck] = {"class": ck, "history": su.jsonable(hist), "model": repr(mout)[:300], "impl": repr(got)[:300]}
     for ck in SINGLE:
@@ -252,6 +296,18 @@ def schema_stream(ctx):
         if ck in bad:
             s.mismatches.append(bad[ck])
             ctx.violation("failing-input", ck, {"check": "schema-model-vs-impl", **bad[ck], "broken": f"tie:schema:{ck}"})
+    # torch.promote_types vs Models/SyncSchema.v promote: exhaustive on the six dtype codes
+    names = sorted(su.DTYPES, key=su.DTYPES.get)
+    pc = [("sync_promote", [su.DTYPES[a], su.DTYPES[b]]) for a in names for b in names]
+    po = run_model(pc)
+    pbad = [(a, b) for (a, b), o in zip([(a, b) for a in names for b in names], po)
+            if o != su.DTYPES[str(torch.promote_types(su.TORCH_DT[a], su.TORCH_DT[b])).replace("torch.", "")]]
+    for a in names:
+        for b in names:
+            s.case(("promote", a, b), a != b)
+    ctx.oblige("tie:schema:promote_types (exhaustive, 36 pairs)", not pbad, detail=repr(pbad)[:400])
+    if pbad:
+        ctx.violation("failing-input", "promote_types", {"check": "promote-model-vs-torch", "pairs": pbad, "broken": "tie:schema:promote_types (exhaustive, 36 pairs)"})
 
 
 def witness_stream(ctx):
